@@ -2,6 +2,7 @@
 import io
 import itertools
 import random
+import re
 import tokenize
 
 import core
@@ -165,11 +166,16 @@ def system(R, rng, tier):
             k = rng.randint(0, min(3, len(lines) + 1))
             spots = rng.sample(range(-1, len(lines) + 1), min(k, len(lines) + 2))   # -1: line before, len: line after
             placed = {}
+            # in some files every marker is written with several blanks (or a tab and a blank) after the '#', and nowhere else
+            wide = rng.random() < 0.25
             for s in spots:
                 text, kind, ids = rng.choice(TEXTS)
                 a = rng.choice(tids + [OTHER])
                 b = rng.choice(tids + [OTHER, "B110"])
-                placed[s] = (render(text, a, b), kind, None if ids is None else [a if x == "A" else b for x in ids])
+                t_ = render(text, a, b)
+                if wide:
+                    t_ = re.sub(r"#[ \t]?(?=nosec)", rng.choice(["#  ", "#   ", "#\t ", "#    "]), t_)
+                placed[s] = (t_, kind, None if ids is None else [a if x == "A" else b for x in ids])
             pre = ["import subprocess  # zz"] if any("subprocess." in l for l in lines) else []
             if any("hashlib." in l or "pickle." in l for l in lines):
                 pre = pre + ["import hashlib, pickle  # zz"]
@@ -183,7 +189,7 @@ def system(R, rng, tier):
                 body.append(l + ("  " + placed[i][0] if i in placed else ""))
             if len(lines) in placed:
                 body.append("zz_after = 2  " + placed[len(lines)][0])
-            body.append("zz_s = 'x = 1  # nosec'")
+            body.append("zz_s = 'x = 1  #  nosec'" if wide else "zz_s = 'x = 1  # nosec'")
             if rng.random() < 0.3:
                 body.append("# zz \u202e a file-level finding (B613) far from every nosec comment")
             src = "\n".join(body) + "\n"
